@@ -158,3 +158,186 @@ package cluster
 //@        gone != nil && old(has(s.members.members, gone.ID)) && gone.Host == old(c.message).(memberLeave).ListenAddr && forallS("Str", id, has(s.members.members, id) == (old(has(s.members.members, id)) && id != gone.ID)) &&
 //@        (s.cluster.agentPID != nil ==> loglen == entry(loglen) + 1 && addressedTo(log[entry(loglen)], s.cluster.agentPID))
 //@   ensures[C20.leave.others-untouched] istype(old(c.message), memberLeave) ==> forallS("Str", id, has(s.members.members, id) ==> s.members.members[id] == old(s.members.members[id])) && msInv(s.members)
+
+// ---------------------------------------------------------------------------
+// Membership view of the agent (C18). ID sets of member slices are spoken of
+// pointwise: "id occurs in sl" is exists(k, sl[k].ID == id).
+
+//@ pred allNonNil(sl) := forall(k, 0 <= k && k < len(sl) ==> sl[k] != nil)
+
+// NewMemberSet: the set of the listed members keyed by ID (a later entry with
+// the same ID replaces an earlier one).
+//@ func NewMemberSet(members)
+//@   props C18
+//@   requires allNonNil(members)
+//@   modifies
+//@   ensures[C18.newset.inv] fresh(result) && msInv(result)
+//@   ensures[C18.newset.sound] forallS("Str", id, has(result.members, id) ==> exists(j, 0 <= j && j < len(members) && members[j] == result.members[id]))
+//@   ensures[C18.newset.complete] forall(j, 0 <= j && j < len(members) ==> has(result.members, members[j].ID))
+//@   ghost at entry: wit = arbitrary("(Array Str Int)")
+//@   ghost at mapupdate#1: wit = store(wit, key, rangeindex)
+//@   loop 1
+//@     invariant rangeindex >= -1 && m != nil && fresh(m)
+//@     invariant forallS("Str", id, has(m, id) ==> 0 <= wit[id] && wit[id] <= rangeindex && wit[id] < len(members) && members[wit[id]] == m[id] && m[id].ID == id)
+//@     invariant forall(j, 0 <= j && j <= rangeindex && j < len(members) ==> has(m, members[j].ID))
+//@     modifies mapof(m)
+
+// Except: the members of s whose ID does not occur in the argument, each once.
+//@ func (*MemberSet).Except(members)
+//@   props C18
+//@   requires msInv(s) && allNonNil(members)
+//@   modifies
+//@   ensures[C18.except.sound] forall(k, 0 <= k && k < len(result) ==> result[k] != nil && has(s.members, result[k].ID) && s.members[result[k].ID] == result[k] && forall(j, 0 <= j && j < len(members) ==> members[j].ID != result[k].ID))
+//@   ensures[C18.except.complete] forallS("Str", id, has(s.members, id) && forall(j, 0 <= j && j < len(members) ==> members[j].ID != id) ==> exists(k, 0 <= k && k < len(result) && result[k] == s.members[id]))
+//@   ensures[C18.except.no-duplicates] forall(k1, k2, 0 <= k1 && k1 < k2 && k2 < len(result) ==> result[k1].ID != result[k2].ID)
+//@   ensures fresh(result) || len(result) == 0
+//@   ghost at entry: wit = arbitrary("(Array Str Int)"); pos = arbitrary("(Array Str Int)")
+//@   ghost at mapupdate#1: wit = store(wit, key, rangeindex)
+//@   ghost at call append#1 before: pos = store(pos, member.ID, len(except))
+//@   loop 1
+//@     invariant rangeindex >= -1 && m != nil && fresh(m) && msInv(s) && len(except) == 0
+//@     invariant forallS("Str", id, has(m, id) ==> 0 <= wit[id] && wit[id] <= rangeindex && wit[id] < len(members) && members[wit[id]].ID == id)
+//@     invariant forall(j, 0 <= j && j <= rangeindex && j < len(members) ==> has(m, members[j].ID))
+//@     modifies mapof(m)
+//@   loop 2
+//@     invariant msInv(s) && m != nil
+//@     invariant forallS("Str", id, has(m, id) ==> 0 <= wit[id] && wit[id] < len(members) && members[wit[id]].ID == id)
+//@     invariant forall(j, 0 <= j && j < len(members) ==> has(m, members[j].ID))
+//@     invariant forall(k, 0 <= k && k < len(except) ==> except[k] != nil && visited1[except[k].ID] && has(s.members, except[k].ID) && s.members[except[k].ID] == except[k] && !has(m, except[k].ID))
+//@     invariant forallS("Str", id, visited1[id] && has(s.members, id) && !has(m, id) ==> 0 <= pos[id] && pos[id] < len(except) && except[pos[id]] == s.members[id])
+//@     invariant forall(k1, k2, 0 <= k1 && k1 < k2 && k2 < len(except) ==> except[k1].ID != except[k2].ID)
+//@     invariant fresh(except) && except.arr != members.arr
+//@     modifies elements(except)
+
+//@ pred agentInv(a) := a != nil && msInv(a.members) && a.kinds != nil && a.activated != nil && a.cluster != nil && engInv(a.cluster.engine) &&
+//@      forallS("Str", id, has(a.activated, id) ==> a.activated[id] != nil && a.activated[id].ID == id)
+//@ pred isJoinEvent(ev) := isev(ev, Broadcast) && istype(ev.Broadcast_msg, MemberJoinEvent)
+//@ pred isLeaveEvent(ev) := isev(ev, Broadcast) && istype(ev.Broadcast_msg, MemberLeaveEvent)
+
+//@ func (*Member).PID()
+//@   trusted
+//@   modifies
+//@   ensures result != nil && fresh(result)
+
+//@ func (*Agent).memberJoin(member)
+//@   props C18
+//@   requires agentInv(a) && member != nil
+//@   nopanic[C18.join.nopanic]
+//@   modifies mapof(a.members.members), mapof(a.kinds), log, loglen
+//@   ensures[C18.join.member-added] forallS("Str", id, has(a.members.members, id) == (old(has(a.members.members, id)) || id == member.ID)) && a.members.members[member.ID] == member &&
+//@        forallS("Str", id, id != member.ID ==> a.members.members[id] == old(a.members.members[id]))
+//@   ensures[C18.join.kinds-added] forall(j, 0 <= j && j < len(member.Kinds) ==> has(a.kinds, member.Kinds[j])) && forallS("Str", k, old(has(a.kinds, k)) ==> has(a.kinds, k))
+//@   ensures[C18.join.kinds-nothing-else] forallS("Str", k, has(a.kinds, k) && !old(has(a.kinds, k)) ==> exists(j, 0 <= j && j < len(member.Kinds) && member.Kinds[j] == k))
+//@   ensures[C18.join.exactly-one-join-event] log[loglen - 1] == Broadcast(a.cluster.engine, MemberJoinEvent{Member: member}) && (loglen == entry(loglen) + 1 || loglen == entry(loglen) + 2) &&
+//@        (loglen == entry(loglen) + 2 ==> !isJoinEvent(log[entry(loglen)]) && !isLeaveEvent(log[entry(loglen)])) && logPrefix(entry(loglen))
+//@   ensures[C18.join.inv] agentInv(a)
+//@   ghost at entry: kw = arbitrary("(Array Str Int)")
+//@   ghost at mapupdate#1: kw = store(kw, key, rangeindex)
+//@   loop 1
+//@     invariant rangeindex >= -1 && agentInv(a)
+//@     invariant forall(j, 0 <= j && j <= rangeindex && j < len(member.Kinds) ==> has(a.kinds, member.Kinds[j])) && forallS("Str", k, old(has(a.kinds, k)) ==> has(a.kinds, k))
+//@     invariant forallS("Str", k, has(a.kinds, k) && !old(has(a.kinds, k)) ==> 0 <= kw[k] && kw[k] <= rangeindex && kw[k] < len(member.Kinds) && member.Kinds[kw[k]] == k)
+//@     modifies mapof(a.kinds)
+//@   loop 2
+//@     invariant[C18.join.l2.inv] agentInv(a)
+//@     invariant[C18.join.l2.fresh] fresh(actorInfos)
+//@     modifies elements(actorInfos)
+
+//@ func (*Agent).removeActivated(pid)
+//@   props C18 C19
+//@   requires a != nil && a.activated != nil && pid != nil
+//@   modifies mapof(a.activated)
+//@   ensures[C19.activated.removed] forallS("Str", id, has(a.activated, id) == (old(has(a.activated, id)) && id != pid.ID)) && forallS("Str", id, a.activated[id] == old(a.activated[id]))
+
+// MemberSet.ForEach is verified only as inlined into Agent.rebuildKinds: its
+// loop invariant speaks about that caller's state through the ghost locals MS
+// (the member set) and KM (the kinds map) set at rebuildKinds' entry, and the
+// witnesses kwm/kwj (for a kind: a visited member advertising it, and where).
+//@ func (*MemberSet).ForEach(fun)
+//@   inline
+//@   loop 1
+//@     invariant[C18.kinds.loop.inv] msInv(MS) && KM != nil
+//@     invariant[C18.kinds.loop.complete] forallS("Str", id, visited1[id] && has(MS.members, id) ==> forall(j, 0 <= j && j < len(MS.members[id].Kinds) ==> has(KM, MS.members[id].Kinds[j])))
+//@     invariant[C18.kinds.loop.sound] forallS("Str", k, has(KM, k) ==> visited1[kwm[k]] && has(MS.members, kwm[k]) && 0 <= kwj[k] && kwj[k] < len(MS.members[kwm[k]].Kinds) && MS.members[kwm[k]].Kinds[kwj[k]] == k)
+//@     modifies mapof(KM)
+
+//@ func (*Agent).rebuildKinds$1(m)
+//@   inline
+//@   ghost at mapupdate#1: kwm = store(kwm, key, m.ID); kwj = store(kwj, key, rangeindex)
+//@   loop 1
+//@     invariant[C18.kinds.inner.inv] rangeindex >= -1 && msInv(MS) && KM != nil && has(MS.members, key1) && MS.members[key1] == m && visited1[key1]
+//@     invariant[C18.kinds.inner.current] forall(j, 0 <= j && j <= rangeindex && j < len(m.Kinds) ==> has(KM, m.Kinds[j]))
+//@     invariant[C18.kinds.inner.complete] forallS("Str", id, visited1[id] && id != key1 && has(MS.members, id) ==> forall(j, 0 <= j && j < len(MS.members[id].Kinds) ==> has(KM, MS.members[id].Kinds[j])))
+//@     invariant[C18.kinds.inner.sound] forallS("Str", k, has(KM, k) ==> visited1[kwm[k]] && has(MS.members, kwm[k]) && 0 <= kwj[k] && kwj[k] < len(MS.members[kwm[k]].Kinds) && MS.members[kwm[k]].Kinds[kwj[k]] == k)
+//@     modifies mapof(KM)
+
+// rebuildKinds: afterwards the kinds map holds exactly the kinds advertised
+// by the members of the current view.
+//@ func (*Agent).rebuildKinds()
+//@   props C18
+//@   requires agentInv(a)
+//@   modifies mapof(a.kinds)
+//@   ghost at entry: MS = a.members; KM = a.kinds; kwm = arbitrary("(Array Str Str)"); kwj = arbitrary("(Array Str Int)")
+//@   ensures[C18.kinds.every-advertised-kind] forallS("Str", id, has(a.members.members, id) ==> forall(j, 0 <= j && j < len(a.members.members[id].Kinds) ==> has(a.kinds, a.members.members[id].Kinds[j])))
+//@   ensures[C18.kinds.only-advertised-kinds] forallS("Str", k, has(a.kinds, k) ==> existsS("Str", id, has(a.members.members, id) && exists(j, 0 <= j && j < len(a.members.members[id].Kinds) && a.members.members[id].Kinds[j] == k)))
+//@   ensures[C18.kinds.inv] agentInv(a)
+
+//@ func (*Agent).memberLeave(member)
+//@   props C18 C19
+//@   requires agentInv(a) && member != nil
+//@   nopanic[C18.leave.nopanic]
+//@   modifies mapof(a.members.members), mapof(a.kinds), mapof(a.activated), log, loglen
+//@   ensures[C18.leave.member-removed] forallS("Str", id, has(a.members.members, id) == (old(has(a.members.members, id)) && id != member.ID)) && forallS("Str", id, has(a.members.members, id) ==> a.members.members[id] == old(a.members.members[id]))
+//@   ensures[C18.leave.kinds-are-those-of-the-remaining-members] forallS("Str", id, has(a.members.members, id) ==> forall(j, 0 <= j && j < len(a.members.members[id].Kinds) ==> has(a.kinds, a.members.members[id].Kinds[j]))) &&
+//@        forallS("Str", k, has(a.kinds, k) ==> existsS("Str", id, has(a.members.members, id) && exists(j, 0 <= j && j < len(a.members.members[id].Kinds) && a.members.members[id].Kinds[j] == k)))
+//@   ensures[C18.leave.exactly-one-leave-event] loglen == entry(loglen) + 1 && log[entry(loglen)] == Broadcast(a.cluster.engine, MemberLeaveEvent{Member: member}) && logPrefix(entry(loglen))
+//@   ensures[C19.leave.purges-activations-hosted-there] forallS("Str", id, has(a.activated, id) == (old(has(a.activated, id)) && old(a.activated[id]).Address != member.Host)) && forallS("Str", id, has(a.activated, id) ==> a.activated[id] == old(a.activated[id]))
+//@   ensures[C18.leave.inv] agentInv(a)
+//@   loop 1
+//@     invariant agentInv(a)
+//@     invariant[C19.leave.loop.kept] forallS("Str", id, has(a.activated, id) ==> old(has(a.activated, id)) && a.activated[id] == old(a.activated[id]))
+//@     invariant[C19.leave.loop.purged] forallS("Str", id, old(has(a.activated, id)) && visited1[id] && old(a.activated[id]).Address == member.Host ==> !has(a.activated, id))
+//@     invariant[C19.leave.loop.others] forallS("Str", id, old(has(a.activated, id)) && !has(a.activated, id) ==> old(a.activated[id]).Address == member.Host)
+//@     modifies mapof(a.activated)
+
+// handleMembers: after a snapshot the view equals the snapshot by member ID;
+// memberJoin is called once for every snapshot ID that was not in the view
+// (and for nothing else), memberLeave once for every view member whose ID is
+// not in the snapshot (and for nothing else); each of those publishes exactly
+// one MemberJoinEvent / MemberLeaveEvent (their own contracts).
+//@ func (*Agent).handleMembers(members)
+//@   props C18
+//@   requires agentInv(a) && allNonNil(members)
+//@   nopanic[C18.members.nopanic]
+//@   modifies mapof(a.members.members), mapof(a.kinds), mapof(a.activated), log, loglen
+//@   ghost at entry: jw = arbitrary("(Array Str Int)"); lw = arbitrary("(Array Str Int)")
+//@   ghost at call memberJoin#1 before: assert[C18.members.joins-only-new-ids-of-the-snapshot] arg0 == a && !old(has(a.members.members, arg1.ID)) && !has(a.members.members, arg1.ID) && exists(j, 0 <= j && j < len(members) && members[j].ID == arg1.ID)
+//@   ghost at call memberJoin#1: jw = store(jw, member.ID, rangeindex)
+//@   ghost at call memberLeave#1 before: assert[C18.members.leaves-only-view-members-missing-from-the-snapshot] arg0 == a && old(has(a.members.members, arg1.ID)) && old(a.members.members[arg1.ID]) == arg1 && has(a.members.members, arg1.ID) && forall(j, 0 <= j && j < len(members) ==> members[j].ID != arg1.ID)
+//@   ghost at call memberLeave#1: lw = store(lw, member.ID, rangeindex)
+//@   ensures[C18.members.view-equals-snapshot] forallS("Str", id, has(a.members.members, id) ==> exists(j, 0 <= j && j < len(members) && members[j].ID == id)) && forall(j, 0 <= j && j < len(members) ==> has(a.members.members, members[j].ID))
+//@   ensures[C18.members.stayers-untouched] forallS("Str", id, has(a.members.members, id) && old(has(a.members.members, id)) ==> a.members.members[id] == old(a.members.members[id]))
+//@   ensures[C18.members.inv] agentInv(a)
+//@   loop 1
+//@     invariant rangeindex >= -1 && agentInv(a) && allNonNil(joined) && allNonNil(left)
+//@     invariant[C18.members.l1.joined-are-new] forall(k, 0 <= k && k < len(joined) ==> !old(has(a.members.members, joined[k].ID)) && exists(j, 0 <= j && j < len(members) && members[j].ID == joined[k].ID))
+//@     invariant[C18.members.l1.joined-distinct] forall(k1, k2, 0 <= k1 && k1 < k2 && k2 < len(joined) ==> joined[k1].ID != joined[k2].ID)
+//@     invariant[C18.members.l1.joined-complete] forall(j, 0 <= j && j < len(members) ==> old(has(a.members.members, members[j].ID)) || exists(k, 0 <= k && k < len(joined) && joined[k].ID == members[j].ID))
+//@     invariant[C18.members.l1.left-are-old] forall(k, 0 <= k && k < len(left) ==> old(has(a.members.members, left[k].ID)) && old(a.members.members[left[k].ID]) == left[k] && forall(j, 0 <= j && j < len(members) ==> members[j].ID != left[k].ID))
+//@     invariant[C18.members.l1.left-complete] forallS("Str", id, old(has(a.members.members, id)) && forall(j, 0 <= j && j < len(members) ==> members[j].ID != id) ==> exists(k, 0 <= k && k < len(left) && left[k] == old(a.members.members[id])))
+//@     invariant[C18.members.l1.old-kept] forallS("Str", id, old(has(a.members.members, id)) ==> has(a.members.members, id) && a.members.members[id] == old(a.members.members[id]))
+//@     invariant[C18.members.l1.added] forall(k, 0 <= k && k <= rangeindex && k < len(joined) ==> has(a.members.members, joined[k].ID))
+//@     invariant[C18.members.l1.nothing-else] forallS("Str", id, has(a.members.members, id) && !old(has(a.members.members, id)) ==> 0 <= jw[id] && jw[id] <= rangeindex && jw[id] < len(joined) && joined[jw[id]].ID == id)
+//@     modifies mapof(a.members.members), mapof(a.kinds)
+//@   loop 2
+//@     invariant rangeindex >= -1 && agentInv(a) && allNonNil(left)
+//@     invariant[C18.members.l2.left-are-old] forall(k, 0 <= k && k < len(left) ==> old(has(a.members.members, left[k].ID)) && old(a.members.members[left[k].ID]) == left[k] && forall(j, 0 <= j && j < len(members) ==> members[j].ID != left[k].ID))
+//@     invariant[C18.members.l2.left-distinct] forall(k1, k2, 0 <= k1 && k1 < k2 && k2 < len(left) ==> left[k1].ID != left[k2].ID)
+//@     invariant[C18.members.l2.left-complete] forallS("Str", id, old(has(a.members.members, id)) && forall(j, 0 <= j && j < len(members) ==> members[j].ID != id) ==> exists(k, 0 <= k && k < len(left) && left[k] == old(a.members.members[id])))
+//@     invariant[C18.members.l2.snapshot-present] forall(j, 0 <= j && j < len(members) ==> has(a.members.members, members[j].ID))
+//@     invariant[C18.members.l2.new-from-snapshot] forallS("Str", id, has(a.members.members, id) && !old(has(a.members.members, id)) ==> exists(j, 0 <= j && j < len(members) && members[j].ID == id))
+//@     invariant[C18.members.l2.old-values] forallS("Str", id, has(a.members.members, id) && old(has(a.members.members, id)) ==> a.members.members[id] == old(a.members.members[id]))
+//@     invariant[C18.members.l2.removed] forall(k, 0 <= k && k <= rangeindex && k < len(left) ==> !has(a.members.members, left[k].ID))
+//@     invariant[C18.members.l2.not-yet-removed] forall(k, rangeindex < k && k < len(left) ==> has(a.members.members, left[k].ID))
+//@     invariant[C18.members.l2.only-left-removed] forallS("Str", id, old(has(a.members.members, id)) && !has(a.members.members, id) ==> 0 <= lw[id] && lw[id] <= rangeindex && lw[id] < len(left) && left[lw[id]].ID == id)
+//@     modifies mapof(a.members.members), mapof(a.kinds), mapof(a.activated)
